@@ -20,9 +20,36 @@ from typing import Dict, List, Optional
 HARNESSES: Dict[str, dict] = {}
 
 
-def harness(name, target, complete, bound=None, timeout=600, crate="detector", stubs=False, decode=None):
+def harness(name, target, complete, bound=None, timeout=600, crate="detector", stubs=False, decode=None, frag=None):
     HARNESSES[name] = {"name": name, "target": target, "complete": complete, "bound": bound,
-                       "timeout": timeout, "crate": crate, "stubs": stubs, "decode": decode}
+                       "timeout": timeout, "crate": crate, "stubs": stubs, "decode": decode, "frag": frag}
+
+
+# fragment units (contracts/<unit>.vspec, `mode rust`) compiled into the harness modules, with the stub that keeps the
+# harness module compiling when the anchor is lost (the dependent harnesses are then reported undecided)
+FRAG_UNITS = {
+    "frag_phys": "pub fn wire_cal(_v: i16, _b: i16, _g: f64) -> f64 { unimplemented!() }\n"
+                 "pub fn pad_cal(_v: i16, _b: i16, _g: f64) -> f64 { unimplemented!() }\n"
+                 "pub fn a_entry(_i: usize, _j: usize) -> f64 { unimplemented!() }\n",
+    "frag_cb": "pub fn split_row(_c: &[FifoEntry]) -> (Option<WrapAroundMarker>, &[FifoEntry]) { unimplemented!() }\n",
+}
+
+
+def build_frags(repo: str, verif: str, outdir: str) -> Dict[str, dict]:
+    from . import vspec, extract
+    os.makedirs(outdir, exist_ok=True)
+    res = {}
+    for unit, stub in FRAG_UNITS.items():
+        path = os.path.join(outdir, unit + ".rs")
+        try:
+            u = vspec.parse(os.path.join(verif, "contracts", unit + ".vspec"))
+            b = extract.UnitBuilder(repo, os.path.join(verif, "contracts", "lib"), u)
+            open(path, "w").write(b.build())
+            res[unit] = {"ok": True, "cuts": b.rep.cuts, "sources": b.rep.sources, "rules": b.rep.rules}
+        except Exception as e:
+            open(path, "w").write("// fragment extraction failed: " + str(e).replace("\n", " ") + "\n" + stub)
+            res[unit] = {"ok": False, "reason": str(e)}
+    return res
 
 
 def _hex(vals):
@@ -72,6 +99,18 @@ harness("fifo_word_complete", "chronobox::fifo_entry on every 4-byte word", True
 harness("fifo_word_short", "chronobox::fifo_entry on 0..=3 bytes", True, bound="all inputs shorter than a word")
 harness("fifo_word_then_rest", "chronobox::fifo_entry leaves the following 4 bytes untouched", True, bound="all 8-byte inputs")
 harness("scalers_block_lengths", "chronobox::scalers_block at 0,3,4,243,244,245,248 bytes", True, bound="all bytes at the lengths where the verdict can change (take(240) is length-uniform)")
+harness("cal_wire_complete", "wire calibration closure of MainEvent::try_from_banks (extracted expression)", True,
+        bound="all v: i16, baseline: i16; gain in {3.0, -0.5, 1.0}", timeout=1500, frag="frag_phys")
+harness("cal_pad_complete", "pad calibration closure of MainEvent::try_from_banks (extracted expression)", True,
+        bound="all v: i16, baseline: i16; gain in {3.0, -0.5, 1.0}", timeout=1500, frag="frag_phys",
+        decode=lambda vals: {"op": "c09_pad", "v": int.from_bytes(bytes(vals[0]), "little", signed=True),
+                             "baseline": int.from_bytes(bytes(vals[1]), "little", signed=True)})
+harness("a_entry_complete", "induction-matrix entry closure of a_matrix (extracted expression)", True,
+        bound="all i, j < 256", frag="frag_phys")
+harness("split_row_marker_chunks", "row split of chronobox-timestamps on chunks closed by a marker", False,
+        bound="chunks of <= 3 entries", timeout=1500, frag="frag_cb")
+harness("split_row_keeps_all_timestamps", "row split of chronobox-timestamps: every timestamp of a chunk gets a row", False,
+        bound="chunks of <= 3 entries", timeout=1500, frag="frag_cb")
 
 
 def make_scratch(repo: str, verif: str) -> str:
@@ -84,6 +123,10 @@ def make_scratch(repo: str, verif: str) -> str:
     with open(os.path.join(scratch, ".cargo", "config.toml"), "w") as f:
         f.write(f'[net]\noffline = true\n[patch.crates-io]\ncrc32c = {{ path = "{verif}/kani/crc32c-stub" }}\n')
     return scratch
+
+
+def frag_dir(scratch: str) -> str:
+    return os.path.join(scratch, "verif_frag")
 
 
 _sum_re = re.compile(r"\*\* (\d+) of (\d+) failed")
@@ -147,14 +190,18 @@ def run_harnesses(repo: str, verif: str, names: List[str], keep: bool = False, j
     scratch = make_scratch(repo, verif)
     target_dir = os.path.join(verif, "work", "kani-target")
     os.makedirs(target_dir, exist_ok=True)
-    env = dict(os.environ, CARGO_NET_OFFLINE="true", CARGO_TARGET_DIR=target_dir)
+    env = dict(os.environ, CARGO_NET_OFFLINE="true", CARGO_TARGET_DIR=target_dir, VERIF_FRAG_DIR=frag_dir(scratch))
+    frags = build_frags(repo, verif, frag_dir(scratch))
+    out["fragments"] = frags
     try:
         tmo = max(HARNESSES[n]["timeout"] for n in names) + 300
         cmd = ["cargo", "kani", "-Z", "stubbing", "-j", str(jobs), "--output-format", "terse"]
         for n in names:
             cmd += ["--harness", n]
         try:
-            p = subprocess.run(cmd, cwd=os.path.join(scratch, "detector"), env=env, capture_output=True, text=True, timeout=tmo)
+            with MemWatch(target_dir) as mw:
+                p = subprocess.run(cmd, cwd=os.path.join(scratch, "detector"), env=env, capture_output=True, text=True, timeout=tmo)
+            out["killed_for_memory"] = mw.killed
             text = p.stdout + "\n" + p.stderr
             timed_out = False
         except subprocess.TimeoutExpired as e:
@@ -168,7 +215,9 @@ def run_harnesses(repo: str, verif: str, names: List[str], keep: bool = False, j
             meta = HARNESSES[n]
             h = dict(meta)
             d = per.get(n)
-            if build_failed:
+            if meta.get("frag") and not frags.get(meta["frag"], {}).get("ok"):
+                h.update(status="undecided", reason="fragment not extracted: " + frags.get(meta["frag"], {}).get("reason", "?"))
+            elif build_failed:
                 h.update(status="undecided", reason="the crate (with the harness module) does not compile under Kani: " +
                          _first_error(text))
             elif d is None:
@@ -247,6 +296,43 @@ def _witness(raw: str) -> Optional[dict]:
     for v in re.finditer(r"vec!\[([0-9,\s]*)\]", m.group(1)):
         vals.append([int(x) for x in v.group(1).replace("\n", " ").split(",") if x.strip()])
     return {"kind": "kani_concrete_vals", "vals": vals}
+
+
+class MemWatch:
+    """kills any cbmc process of this run whose resident set exceeds the limit (the harness is then `undecided`)"""
+
+    def __init__(self, marker: str, limit_gb: float = 14.0):
+        import threading
+        self.marker, self.limit, self.killed = marker, limit_gb * 1e6, []
+        self._stop = threading.Event()
+        self._t = threading.Thread(target=self._run, daemon=True)
+
+    def __enter__(self):
+        self._t.start()
+        return self
+
+    def __exit__(self, *a):
+        self._stop.set()
+
+    def _run(self):
+        while not self._stop.wait(5):
+            try:
+                for pid in os.listdir("/proc"):
+                    if not pid.isdigit():
+                        continue
+                    try:
+                        cmd = open(f"/proc/{pid}/cmdline").read().replace("\0", " ")
+                        if "cbmc" not in cmd.split(" ")[0] or self.marker not in cmd:
+                            continue
+                        rss = int(open(f"/proc/{pid}/statm").read().split()[1]) * 4   # kB
+                        if rss > self.limit:
+                            os.kill(int(pid), 9)
+                            m = re.search(r"verif_kani\d*([a-z0-9_]+)\.out", cmd)
+                            self.killed.append(m.group(1) if m else pid)
+                    except (OSError, ValueError):
+                        continue
+            except OSError:
+                pass
 
 
 def _kill_cbmc(scratch: str):
